@@ -266,7 +266,30 @@ where
     Scratch<B>: ScratchTakeCore<B>,
     ScratchOwned<B>: ScratchOwnedAlloc<B> + ScratchOwnedBorrow<B>,
 {
-    let infos = ctx.p.ggsw_infos_with(k, dnum);
+    encrypt_prepared_layout::<B, T>(ctx, w, ctx.p.ggsw_infos_with(k, dnum), seed)
+}
+
+/// selector layouts whose radix differs from the integers' (base2k 13): 0 / 13 = the equal-radix layout with `rows`
+/// digits; 11 and 16 = a finer and a coarser radix with enough digits to cover the same `rows * 13` bits
+pub fn selector_layout(p: &Params, sel_base2k: u32, rows: u32) -> poulpy_core::layouts::GGSWLayout {
+    use poulpy_core::layouts::{Base2K, Dnum, TorusPrecision};
+    let mut l = p.ggsw_infos_with((rows + 1) * p.base2k, rows);
+    if sel_base2k != 0 && sel_base2k != p.base2k {
+        let dnum = (rows * p.base2k).div_ceil(sel_base2k);
+        l.base2k = Base2K(sel_base2k);
+        l.dnum = Dnum(dnum);
+        l.k = TorusPrecision((dnum + 1) * sel_base2k);
+    }
+    l
+}
+
+/// direct GGSW encryption of every bit with an explicit layout
+pub fn encrypt_prepared_layout<B: Bk, T: Word>(ctx: &Ctx<B>, w: T, infos: poulpy_core::layouts::GGSWLayout, seed: u64) -> Prep<B, T>
+where
+    Module<B>: HalAll<B> + CoreAll<B> + UintAll<B> + FheUintPreparedFactory<T, B> + FheUintPreparedEncryptSk<T, B>,
+    Scratch<B>: ScratchTakeCore<B>,
+    ScratchOwned<B>: ScratchOwnedAlloc<B> + ScratchOwnedBorrow<B>,
+{
     let enc = EncryptionLayout::new_from_default_sigma(infos).expect("ggsw encryption layout");
     let mut r = Rng::new(seed, 0xE2);
     let mut xe = Source::new(r.seed32());
@@ -893,6 +916,7 @@ pub fn run(run: &mut Run) {
     run.assume("a GGSW cell counts as wrong when its distance to value * g_row * (1 | s_col) reaches max(g_row / 2, 2^-3 / (dnum * (rank+1) * N * 2^(base2k-1))): half its own gadget unit, but never less than the worst-case bound below which no CMux output bit at scale 1/4 can flip (at N = 256 the suite's last gadget row, 2^-26, is within a factor 4 of the bootstrapping noise by design of the parameters)");
     run.assume("every noise statement is a decision statement: a phase coefficient must round to the stated multiple of the encoding scale (1/4 for word bits, the gadget unit for GGSW cells); the observed worst margin is reported in the notes, not asserted");
     run.assume("circuit bootstrapping cases respect the LUT resolution the parameters admit: N / (2^(log_domain+1) * next_pow2(dnum)) >= ceil((hw+1)/2) + 2 rotation positions per half segment, hw = n_lwe / block_size (worst-case rounding of the LWE ciphertext to 2N positions plus input noise); result GGSW layouts have dnum < size; exponent mode is exercised for log_gap_out in 0..=log N - log_domain (the last value is the no-repacking branch)");
+    run.assume("selector radix: CSwap documents and implements a selector GGSW whose base2k differs from the swapped integers' (cswap, glwe_blind_retrieval_statefull and its reverse are exercised with selector base2k 11, 13 and 16 against integers in base2k 13); everything built on CMux (blind selection, the stateless retriever, the blind rotations, the decision diagrams) requires equal radices - glwe_external_product_internal asserts a.base2k() == ggsw.base2k() - and is exercised with equal radices only");
     run.assume("scratch arenas: the operation's own *_tmp_bytes companion where one exists (encrypt, decrypt, prepare, word operations), otherwise the suite's arena density (2^22 bytes at N=256); all arenas and result buffers are pre-filled with a NaN / large-pattern garbage");
     run.note(
         "n_glwe_calibration",
